@@ -726,6 +726,35 @@ def _range_from_advances(b, rng):
     return True
 
 
+_ADV_CACHE = {}
+
+
+def _must_advance(b, callee_id):
+    P = getattr(b, 'program', None)
+    cb = P.bodies.get(callee_id) if P is not None else None
+    if cb is None:
+        return True
+    key = (id(P), callee_id)
+    if key in _ADV_CACHE:
+        return _ADV_CACHE[key]
+    _ADV_CACHE[key] = True      # recursion: assume
+    from flow import must_pass
+    stores = [pos for pos, s in cb.iter_stmts() if s['k'] == 'assign' and any(p in ('.ArxmlLexer.bufpos', '.ArxmlLexer.deferred_end') for p in s['dst'].get('p', []))]    # deferred_end: the one-shot pending EndElement is consumed
+    errs = [pos for pos, s in cb.iter_stmts() if s['k'] == 'assign' and s['rv']['k'] == 'agg' and s['rv'].get('adt') in ('AutosarDataError', 'ArxmlLexerError')]
+    errs += [pos for pos, t in cb.iter_calls() if call_matches(t, r'ArxmlLexer[^:]*(::<[^>]*>)?::error$|FromResidual.*::from_residual$')]     # `?`: the error of a callee is returned
+    # a reader that delegates to another reader which must advance
+    deleg = [pos for pos, t in cb.iter_calls() if callee_of(t) and callee_of(t) != callee_id and re.search(r'ArxmlLexer.*::(next|read_characters|read_xml_header|read_comment|read_element_start|read_element_end)$', callee_of(t)) and _must_advance(cb, callee_of(t))]
+    rets = [pos for pos, t in cb.iter_terms() if t['k'] == 'return']
+    if re.search(r'ArxmlLexer.*::next$', callee_id) or re.search(r'ArxmlParser.*::next$', callee_id):
+        # next(): returns an event a reader produced, EndOfFile, or an error
+        eof = [pos for pos, s in cb.iter_stmts() if s['k'] == 'assign' and s['rv']['k'] == 'agg' and s['rv'].get('var') == 'EndOfFile']
+        ok = must_pass(cb, (0, 0), rets, set(stores) | set(errs) | set(deleg) | set(eof))
+    else:
+        ok = bool(rets) and must_pass(cb, (0, 0), rets, set(stores) | set(errs) | set(deleg))
+    _ADV_CACHE[key] = ok
+    return ok
+
+
 def loop_progress(b):
     """for every natural loop: is there, on every path header -> back to header, a progress event?
     progress = Iterator::next (or next_back/find/position...) on an iterator, or an assignment to a variable that the
@@ -741,7 +770,10 @@ def loop_progress(b):
             if t['k'] == 'call' and call_matches(t, r'Iterator>?::(next|next_back|nth|find|find_map|position|any|all)$|DoubleEndedIterator>?::next_back$|Vec::<T, A>::pop$|SmallVec::<A>::pop$'):
                 prog.add((bi, len(blk['stmts'])))
             if t['k'] == 'call' and callee_of(t) and any(x in (callee_of(t) or '') for x in ('ArxmlLexer', 'ArxmlParser')) and re.search(r'::(next|read_characters|read_xml_header|read_comment|read_element_start|read_element_end)$', callee_of(t) or ''):
-                prog.add((bi, len(blk['stmts'])))
+                # a reader of the lexer is progress only if it cannot return without having moved the read position (or with an error,
+                # which ends the caller's loop): every path to its return stores ArxmlLexer.bufpos or builds an error value
+                if _must_advance(b, callee_of(t)):
+                    prog.add((bi, len(blk['stmts'])))
         # exit-test variables: locals (by user name) read by comparisons / switches in the loop that have an edge leaving the loop
         exit_vars = set()
         for bi in body:
@@ -778,6 +810,16 @@ def loop_progress(b):
                                 nonadv = True
                     if nonadv:
                         continue
+                    # progress only if the variable is loop-carried: its new value is computed from its old value (x = x + 1,
+                    # rem = &rem[k..], cur = cur.parent()) - a value recomputed from other state (endpos = find(..)) is not
+                    vname = b.names.get(s['dst']['l'])
+                    if not s['dst']['p'] and vname is not None and vname != 'self' and rv['k'] == 'use' and is_local_op(rv['o']):
+                        from flow import deep_sources as _deep2
+                        orgs = origins(b, rv['o'])
+                        from_calls = [o_ for o_ in orgs if o_[0] not in ('param', 'const', 'place') and o_[1].get('k') == 'call']
+                        if from_calls and len(from_calls) == len(orgs) and vname not in _deep2(b, rv['o'], depth=10)[0]:
+                            # the value is the result of a call that does not involve the variable itself (endpos = find(..))
+                            continue
                     prog.add((bi, i))
             t = b.blocks[bi]['term']
             if t['k'] == 'call' and not t['dst']['p'] and t['dst']['l'] in var_locals:
@@ -785,6 +827,15 @@ def loop_progress(b):
                 # from find()/position() may be `&x[0..]` and is NOT progress
                 if call_matches(t, r'Index<.*>>::index$|::index$') and len(t['args']) == 2 and not _range_from_advances(b, t['args'][1]):
                     continue
+                vname = b.names.get(t['dst']['l'])
+                if vname is not None and vname != 'self' and call_matches(t, r'Iterator>?::(position|rposition|find)$|<impl str>::(find|rfind)$|memchr'):
+                    from flow import deep_sources as _deep3
+                    srcs = set()
+                    for o_ in t['args']:
+                        if is_local_op(o_):
+                            srcs |= _deep3(b, o_, depth=10)[0]
+                    if vname not in srcs:
+                        continue
                 prog.add((bi, len(b.blocks[bi]['stmts'])))
         # every cycle through h passes a progress event: remove progress positions, check h not reachable from h inside body
         ok = _no_cycle_without(b, h, body, prog)
